@@ -287,3 +287,90 @@ def fmtorder(repo):
     res.samples = [f"{len(fm.entries)} formatter registrations, every return keeps children in right-hand-side order"]
     res.analysed = [G.FORMAT_EMB, G.MODULE_IR]
     return res
+
+
+# ---------------------------------------------------------------------------------------------------------
+# R-FMTINDENT: what stands between Indent and Dedent in the source is emitted one level deeper
+def _indenters(m):
+    """Functions of format_emb that return their argument one indentation level deeper: the one that builds a row
+    with `indent=<row>.indent + 1`, and every function that applies an indenter to (parts of) its argument."""
+    found = set()
+    for f in m.top_funcs():
+        for n in walk_no_nested_funcs(f.node):
+            if isinstance(n, ast.keyword) and n.arg == "indent" and isinstance(n.value, ast.BinOp) and isinstance(n.value.op, ast.Add) \
+                    and ast.unparse(n.value.right) == "1" and ast.unparse(n.value.left).endswith(".indent"):
+                found.add(f.name)
+    changed = True
+    while changed:
+        changed = False
+        for f in m.top_funcs():
+            if f.name in found or len(f.node.args.args) != 1:
+                continue
+            for n in walk_no_nested_funcs(f.node):
+                if isinstance(n, ast.Call) and any(isinstance(x, ast.Name) and x.id in found for x in ast.walk(n.func)) or \
+                        (isinstance(n, ast.Call) and call_name(n) == "map" and n.args and isinstance(n.args[0], ast.Name) and n.args[0].id in found):
+                    if isinstance(n, ast.Call) and (call_name(n) in found or call_name(n) == "map"):
+                        found.add(f.name)
+                        changed = True
+                        break
+    return found
+
+
+def fmtindent(repo):
+    res = RuleResult("R-FMTINDENT")
+    g = G.ir_grammar(repo)
+    nonblank = nonblank_symbols(g["productions"])
+    fm = G.fmt_grammar(repo)
+    m = repo.mod(G.FORMAT_EMB)
+    ind = _indenters(m)
+    if len(ind) < 2:
+        raise AnalysisError(f"format_emb: indenting helpers not recognised ({sorted(ind)})")
+    done = set()
+
+    def occurrences(node, fnode, params, inside, depth=0, seen=()):
+        """[(param, inside an indenter?)] for content-carrying occurrences in `node`."""
+        out = []
+        if isinstance(node, ast.IfExp):
+            return occurrences(node.body, fnode, params, inside, depth, seen) + occurrences(node.orelse, fnode, params, inside, depth, seen)
+        if isinstance(node, ast.Call):
+            cn = call_name(node) or ""
+            now = inside or cn in ind
+            for a in list(node.args) + [k.value for k in node.keywords]:
+                out += occurrences(a, fnode, params, now, depth, seen)
+            return out
+        if isinstance(node, ast.Name):
+            if node.id in params:
+                return [(node.id, inside)]
+            if node.id not in seen and depth < 6:
+                defs = [x for x in walk_no_nested_funcs(fnode) if isinstance(x, ast.Assign)
+                        and any(isinstance(t, ast.Name) and t.id == node.id for t in x.targets)]
+                if len(defs) == 1:
+                    return occurrences(defs[0].value, fnode, params, inside, depth + 1, seen + (node.id,))
+            return []
+        for ch in ast.iter_child_nodes(node):
+            out += occurrences(ch, fnode, params, inside, depth, seen)
+        return out
+
+    for prod, f, dec, dnode in fm.entries:
+        lhs, rhs = prod
+        if "Indent" not in rhs or "Dedent" not in rhs or f.node.args.vararg is not None:
+            continue
+        i, j = rhs.index("Indent"), len(rhs) - 1 - rhs[::-1].index("Dedent")
+        pos = [a.arg for a in f.node.args.args]
+        inner = {pos[k]: rhs[k] for k in range(i + 1, j) if k < len(pos) and rhs[k] in nonblank}
+        for n in walk_no_nested_funcs(f.node):
+            if not (isinstance(n, ast.Return) and n.value is not None):
+                continue
+            for p, inside in occurrences(n.value, f.node, set(inner), False):
+                if (f.name, p) in done:
+                    continue
+                done.add((f.name, p))
+                res.instances += 1
+                if not inside:
+                    res.add(f"{G.FORMAT_EMB}|{f.name}|{lhs}|{p}", f"formatter {f.name} for '{lhs} -> {' '.join(rhs)}' emits `{p}` "
+                            f"({inner[p]}), which stands between Indent and Dedent in the source, without one of the indenting helpers "
+                            f"{sorted(ind)}: those lines come out at the indentation of the enclosing block, the Indent token moves "
+                            "behind them and the file no longer parses to the same tokens", G.FORMAT_EMB, n.lineno, f.name)
+    res.samples = [f"indenters: {sorted(ind)}"]
+    res.analysed = [G.FORMAT_EMB, G.MODULE_IR]
+    return res
